@@ -20,7 +20,13 @@ func NewTransport(tlscfg *tls.Config) *http.Transport {
 			Timeout:   cfg.Proxy.DialTimeout,
 			KeepAlive: cfg.Proxy.KeepAliveTimeout,
 		}).Dial,
-		TLSClientConfig: tlscfg,
+		// the TLS handshake is part of establishing the connection to the
+		// upstream. Without a limit an upstream which accepts the TCP
+		// connection but never answers the handshake holds the client
+		// forever since neither the dial timeout nor the response header
+		// timeout cover it.
+		TLSHandshakeTimeout: cfg.Proxy.DialTimeout,
+		TLSClientConfig:     tlscfg,
 	}
 }
 
